@@ -18,7 +18,7 @@ use crate::ops::{
     GroupedQueryAttentionMatMul, LayerNormalization, MatMulIntegerToFloat, RMSNormalization,
     Reciprocal, ReduceMean, RepeatInterleave, Shape, Silu, Softmax, Swish, SymbolInfo, Transpose,
 };
-use crate::optimize::pattern_matcher::{Match, Pattern};
+use crate::optimize::pattern_matcher::{Match, Pattern, is_broadcast_neutral};
 use crate::value::ValueType;
 
 #[derive(Debug)]
@@ -294,6 +294,24 @@ trait GraphQuery {
     where
         Constant: TypedConstant<T>;
 
+    /// Extract the scalar value from a single-element constant node which is
+    /// combined with `operand` by a broadcasting operator.
+    ///
+    /// Returns `None` if broadcasting the constant against `operand` could
+    /// change the shape of the result, ie. if the constant has more
+    /// dimensions than `operand` is known to have.
+    fn get_scalar_for<T>(&self, node_id: NodeId, operand: NodeId) -> Option<T>
+    where
+        Constant: TypedConstant<T>,
+    {
+        self.get_scalar(node_id)
+            .filter(|_| self.is_scalar_for(node_id, operand))
+    }
+
+    /// Return true if constant `node_id` can be treated as a scalar when
+    /// combined with `operand` by a broadcasting operator.
+    fn is_scalar_for(&self, node_id: NodeId, operand: NodeId) -> bool;
+
     /// Extract the vector value from a constant node.
     fn get_vector<T>(&self, node_id: NodeId) -> Option<&[T]>
     where
@@ -318,6 +336,10 @@ impl GraphQuery for Graph {
             Node::Constant(const_node) => const_node.as_scalar(),
             _ => None,
         })
+    }
+
+    fn is_scalar_for(&self, node_id: NodeId, operand: NodeId) -> bool {
+        is_broadcast_neutral(self, node_id, &[operand])
     }
 
     fn get_vector<T>(&self, node_id: NodeId) -> Option<&[T]>
@@ -616,8 +638,9 @@ impl PatternFusion for SwishFusion {
 
     fn maybe_fuse(&self, pat_match: &Match, g: &Graph) -> Result<Swish, FusionError> {
         let alpha_input = pat_match.node_id("alpha").expect("missing symbol");
+        let x_input = pat_match.node_id("x").expect("missing symbol");
         let alpha = g
-            .get_scalar(alpha_input)
+            .get_scalar_for(alpha_input, x_input)
             .ok_or(FusionError::CheckFailed("alpha not a scalar"))?;
         Ok(Swish { alpha })
     }
@@ -740,8 +763,8 @@ impl PatternFusion for LayerNormalizationFusion {
         }
 
         let epsilon_input = pat_match.node_id("epsilon").unwrap();
-        let epsilon = graph
-            .get_scalar(epsilon_input)
+        let epsilon = single_output(graph, norm_mean)
+            .and_then(|mean_output| graph.get_scalar_for(epsilon_input, mean_output))
             .ok_or(FusionError::CheckFailed("epsilon not a scalar"))?;
 
         Ok(LayerNormalization {
@@ -794,10 +817,10 @@ impl PatternFusion for RMSNormalizationFusion {
 
     fn maybe_fuse(&self, rms_match: &Match, graph: &Graph) -> Result<Self::Operator, FusionError> {
         let epsilon_input = rms_match.node_id("epsilon").unwrap();
-        let epsilon = graph
-            .get_scalar(epsilon_input)
-            .ok_or(FusionError::CheckFailed("epsilon not a scalar"))?;
         let norm_mean = rms_match.node_id("norm_mean").unwrap();
+        let epsilon = single_output(graph, norm_mean)
+            .and_then(|mean_output| graph.get_scalar_for(epsilon_input, mean_output))
+            .ok_or(FusionError::CheckFailed("epsilon not a scalar"))?;
 
         if !op_applied_to_last_axis::<ReduceMean>(graph, norm_mean) {
             return Err(FusionError::CheckFailed("not applied to last axis"));
@@ -896,8 +919,8 @@ impl FusionVisitor for MatMulScaleFusion {
             }
 
             let [lhs, rhs] = binary_op_input_ids(op_node)?;
-            let lhs_scalar = graph.get_scalar(lhs);
-            let rhs_scalar = graph.get_scalar(rhs);
+            let lhs_scalar = graph.get_scalar_for(lhs, rhs);
+            let rhs_scalar = graph.get_scalar_for(rhs, lhs);
 
             match op_type {
                 "Mul" => match (lhs_scalar, rhs_scalar) {
